@@ -267,11 +267,6 @@ func (f *frame) afterCallLets(sk string, ord int, args, res []Val, st *State) {
 			continue
 		}
 		f.c.hookHits[fmt.Sprintf("call %s#%d", sk, ord)] = true
-		for h, body := range f.loopBody {
-			if body[f.curBlock] || h == f.curBlock {
-				panic(specErr("let %s: call %s#%d is inside a loop", l.Name, sk, ord))
-			}
-		}
 		env := f.hereEnv(st)
 		for i := range args {
 			env.vars[fmt.Sprintf("arg%d", i)] = args[i]
@@ -284,6 +279,7 @@ func (f *frame) afterCallLets(sk string, ord int, args, res []Val, st *State) {
 			v.T = old.T
 		}
 		f.c.ghosts[l.Name] = v
+		f.c.ghostBlk[l.Name] = f.curBlock
 	}
 }
 
